@@ -13,14 +13,14 @@ RULE = ('case = (payload, chunk sizes, per-chunk hex case / leading zeros / toke
         'that ends before the complete zero-size chunk line must raise BodyParsingError (400 through WSGI); (3) each '
         'chunk CRLF deleted / replaced must be rejected; (4) every single-byte substitution in framing bytes '
         '(size lines, CRLFs, last chunk) by a sampled set of bytes must end in acceptance or BodyParsingError/4xx, '
-        'nothing else. evaluations = decoder runs. Non-trivial legal case = >=2 chunks or an extension/trailer or a '
+        'nothing else, and EVERY substitution inside the CRLF after chunk data must be rejected. evaluations = decoder runs. Non-trivial legal case = >=2 chunks or an extension/trailer or a '
         'chunk larger than the buffer under short reads; every (encoding, fault) pair counts as one distinct '
         'non-trivial fault case.')
 ASSUMPTIONS = ['the configured buffer is at least as long as the longest chunk-size line (the scanner bounds a size line by the buffer)',
                'short reads allowed, b"" only at EOF']
 
 TOK = 'abcXYZ019-_.!'
-SUBST = [0x00, 0x0a, 0x0d, 0x20, 0x30, 0x31, 0x3b, 0x41, 0x46, 0x47, 0x66, 0x67, 0x2d, 0x2b, 0x78, 0x5f, 0xff]
+SUBST = [0x00, 0x0a, 0x0d, 0x20, 0x09, 0x30, 0x31, 0x3b, 0x3d, 0x41, 0x46, 0x47, 0x66, 0x67, 0x2d, 0x2b, 0x78, 0x5f, 0xff]
 
 
 def _strategy():
@@ -163,7 +163,7 @@ def check_case(ctx, case):
             for bi, bval in enumerate(SUBST):
                 if bval == enc[pos]:
                     continue
-                if (pos * 31 + bi * 7 + len(enc)) % 3 and only is None:      # deterministic 1/3 sample per position
+                if k != 'crlf' and (pos * 31 + bi * 7 + len(enc)) % 3 and only is None:      # deterministic 1/3 sample per position
                     continue
                 if only is not None and only != ['subst', pos, bval]:
                     continue
@@ -176,6 +176,10 @@ def check_case(ctx, case):
                         decode_wsgi(bad, buf, pattern)
                 except CheckFailure as f:
                     raise CheckFailure(f'{f}; corrupted framing enc={bad!r} fault=["subst",{pos},{bval}]')
+                if k == 'crlf' and kind != 'reject':
+                    # any substitution inside the CRLF that must follow a chunk's data leaves the data not followed by CRLF
+                    raise CheckFailure(f'chunk data not followed by CRLF was accepted: enc={bad!r} (byte {pos} replaced by {bval:#x}) -> {out!r}; '
+                                       f'fault=["subst",{pos},{bval}]')
                 ctx.nontrivial(('subst', enc, pos, bval, buf, tuple(pattern)))
                 ctx.count('fault_framing_corruption_' + kind)
 
